@@ -297,6 +297,35 @@ def smooth_forward_case(ctx, combo, idx, lay, bmkind, traces):
 
 
 # ------------------------------------------------------------------------------------------------
+def adaptive_forward_case(ctx, combo, idx):
+    """(i) with adaptive=True: the options that only concern the backward solve (adjoint_adaptive, adjoint_rtol,
+    adjoint_atol, adjoint_options) must not influence the forward values - sdeint_adjoint returns exactly what sdeint
+    returns for the same FORWARD arguments.  One BrownianInterval object answers both runs (equal forward runs ask the
+    same queries and get the same tensors, C05)."""
+    ty, noise, method, am = combo[:4]
+    b, d = 3, 2
+    m = 1 if noise == "scalar" else 2
+    sde = H.SmoothSDE(noise, d, m, seed=ctx.seed * 11 + idx, sde_type=ty, gscale=0.7)
+    gen = torch.Generator().manual_seed((ctx.seed * 977 + idx * 31 + 7) % (2 ** 31))
+    y0 = torch.randn(b, d, generator=gen, dtype=F64)
+    ts = torch.tensor([0.0, 0.3, 0.5], dtype=F64)
+    bm = torchsde.BrownianInterval(t0=0.0, t1=0.5, size=(b, m), dtype=F64, entropy=ctx.seed * 101 + idx,
+                                   levy_area_approximation=_levy_for(method))
+    fwd = dict(method=method, dt=0.1, adaptive=True, rtol=1e-3, atol=1e-4, dt_min=1e-4)
+    key = dict(part="adaptive_forward", sde_type=ty, noise=noise, method=method, adjoint_method=am)
+    with H.quiet():
+        ya = torchsde.sdeint_adjoint(sde, y0, ts, bm=bm, adjoint_method=am, adjoint_adaptive=bool(idx % 2),
+                                     adjoint_rtol=1e-1, adjoint_atol=0.5, adjoint_options={}, **fwd).detach()
+        with torch.no_grad():
+            yb = torchsde.sdeint(sde, y0, ts, bm=bm, **fwd)
+    ctx.case(("adaptive_forward", ty, noise, method, am), sample=dict(key, ts=ts.tolist()))
+    if not torch.equal(ya, yb):
+        H.violation_once(ctx, dict(key, clause="forward_equal"),
+                         f"adaptive=True: sdeint_adjoint (adjoint_rtol=1e-1, adjoint_atol=0.5) returns other values than "
+                         f"sdeint for the same forward arguments (rtol=1e-3, atol=1e-4): max diff "
+                         f"{float((ya - yb).abs().max()):.3e}")
+
+
 def shrink_case(ctx, combo, idx, logqp=False):
     """(iv) exploration: e(dt), e(dt/4), e(dt/16) on one fixed fine Brownian path.
     logqp=True: the same arguments plus logqp=True (prior drift h = -y): the solution values and the KL increments must be
@@ -439,6 +468,18 @@ def run(ctx):
             H.violation_once(ctx, dict(part="shrink", sde_type=combo[0], noise=combo[1], method=combo[2],
                                        adjoint_method=combo[3], clause="accepted_runs"),
                              f"accepted configuration raised {type(e).__name__}: {str(e)[:200]}")
+    # forward values under adaptive stepping with backward-only options set to something else
+    seen_af = set()
+    for i, combo in enumerate(pool):
+        if (combo[0], combo[1], combo[2]) in seen_af or (ctx.tier == "quick" and i % 2):
+            continue
+        seen_af.add((combo[0], combo[1], combo[2]))
+        try:
+            adaptive_forward_case(ctx, combo, i)
+        except Exception as e:
+            H.violation_once(ctx, dict(part="adaptive_forward", sde_type=combo[0], noise=combo[1], method=combo[2],
+                                       adjoint_method=combo[3], clause="accepted_runs"),
+                             f"accepted configuration with adaptive=True raised {type(e).__name__}: {str(e)[:200]}")
     # the same with logqp=True (KL increments in the loss; prior drift h = -y): additive noise only - the KL integrand
     # needs g^+ (f - h), which is well conditioned for the state-independent diffusion of the harness SDE but not for its
     # state-dependent ones (an ill-conditioned pseudo-inverse says nothing about the adjoint)
